@@ -182,7 +182,7 @@ func Scalar(cfg ValCfg) *rapid.Generator[interface{}] {
 	})
 }
 
-var objKeys = []string{"a", "b", "ab", "c", ""}
+var objKeys = []string{"a", "b", "ab", "c", "", "A", "B"} // "A"/"a": keys that differ only in case are different keys
 
 // Value draws a scalar or a container nested up to depth levels.
 func Value(cfg ValCfg, depth int) *rapid.Generator[interface{}] {
@@ -222,6 +222,12 @@ func Object(cfg ValCfg, depth int) *rapid.Generator[interface{}] {
 
 // Id returns the k-th id of the fixed pool of canonical UUIDs.
 func Id(k int) string {
+	switch k {
+	case 22: // the two extreme canonical UUIDs are valid caller-supplied ids like any other
+		return "ffffffff-ffff-ffff-ffff-ffffffffffff"
+	case 23:
+		return "00000000-0000-0000-0000-000000000000"
+	}
 	return fmt.Sprintf("%08x-0000-4000-8000-%012x", k, k)
 }
 
@@ -297,6 +303,16 @@ func Fields(cfg DocCfg, uniq int64) *rapid.Generator[cs.Doc] {
 				d[f] = Scalar(cfg.Val).Draw(t, "field-"+f)
 			}
 		}
+		if _, isObj := d["n"].(map[string]interface{}); !isObj && containsStr(fs, "n") {
+			// n is absent or not an object: a top-level field named like the leaf of the path n.a
+			// (n.b) is a decoy that a path lookup must not fall back to
+			if rapid.IntRange(0, 2).Draw(t, "decoy-a") == 0 {
+				d["a"] = Scalar(cfg.Val).Draw(t, "decoy-a-val")
+			}
+			if rapid.IntRange(0, 3).Draw(t, "decoy-b") == 0 {
+				d["b"] = Scalar(cfg.Val).Draw(t, "decoy-b-val")
+			}
+		}
 		if cfg.Pad > 0 {
 			d["pad"] = strings.Repeat("p", cfg.Pad)
 		}
@@ -308,4 +324,13 @@ func Fields(cfg DocCfg, uniq int64) *rapid.Generator[cs.Doc] {
 		}
 		return d
 	})
+}
+
+func containsStr(xs []string, x string) bool {
+	for _, y := range xs {
+		if y == x {
+			return true
+		}
+	}
+	return false
 }
